@@ -1798,3 +1798,75 @@ func (g *genCtx) tmplSiblingRejections() {
 		g.simpleInvoke(c2, []int{k1}, "sibling-rejections")
 	}
 }
+
+// tmplDeepSiblingGroups: a chain root -> a -> b with two sibling leaves x and y
+// under b. A value group G is fed from the root (and from b); x and y each
+// decorate G. x consumes another group H, then y consumes H, then x consumes G
+// for the first time, then y does: each sibling must see the decoration of its
+// own scope, whatever its sibling resolved in between (per-scope chains of
+// enclosing scopes must not share state between siblings).
+func (g *genCtx) tmplDeepSiblingGroups() {
+	if g.ft.NT < 2 || g.ft.Catalog {
+		return
+	}
+	grpG, grpH := "g1", "g2"
+	if len(g.ft.Groups) > 0 {
+		grpG = g.ft.Groups[0]
+		if len(g.ft.Groups) > 1 {
+			grpH = g.ft.Groups[1]
+		}
+	}
+	newScope := func(parent int) int {
+		g.addOp(Op{Kind: OpScope, Scope: parent, Tag: "tmpl"})
+		return g.m.AddScope(parent)
+	}
+	a := newScope(0)
+	b := newScope(a)
+	x := newScope(b)
+	y := newScope(b)
+	p := g.r.Perm(g.ft.NT)
+	tG, tH := p[0], p[1]
+	feed := func(s, t int, grp string) {
+		f := g.newFunc(RoleCtor)
+		f.Results = []Result{{Kind: RObj, Fields: []Result{{Kind: RGroup, T: t, Group: grp}}}}
+		f.HasErr = g.r.P(0.3)
+		i := g.addOp(Op{Kind: OpProvide, Scope: s, Fn: f.ID, Tag: "deep-siblings"})
+		if g.m.PredictProvide(s, f) == PredOK {
+			g.m.AddCtor(s, i, f)
+		}
+	}
+	decorate := func(s, t int, grp string) {
+		f := g.newFunc(RoleDec)
+		f.Params = []Param{{Kind: PObj, Fields: []Param{{Kind: PGroup, T: t, Group: grp}}}}
+		f.Results = []Result{{Kind: RObj, Fields: []Result{{Kind: RGroup, T: t, Group: grp}}}}
+		i := g.addOp(Op{Kind: OpDecorate, Scope: s, Fn: f.ID, Tag: "deep-siblings"})
+		if g.m.PredictDecorate(s, f) == PredOK {
+			g.m.AddDec(s, i, f)
+		}
+	}
+	ask := func(s, t int, grp string) {
+		inv := g.newFunc(RoleInv)
+		inv.Params = []Param{{Kind: PObj, Fields: []Param{{Kind: PGroup, T: t, Group: grp}}}}
+		g.addOp(Op{Kind: OpInvoke, Scope: s, Fn: inv.ID, Tag: "deep-siblings"})
+	}
+	feed(0, tG, grpG)
+	if g.r.P(0.5) {
+		feed(b, tG, grpG)
+	}
+	feed([]int{0, a, b}[g.r.Intn(3)], tH, grpH)
+	decorate(x, tG, grpG)
+	if g.r.P(0.7) {
+		decorate(y, tG, grpG)
+	}
+	if g.r.P(0.3) {
+		decorate([]int{a, b}[g.r.Intn(2)], tG, grpG)
+	}
+	first, second := x, y
+	if g.r.P(0.5) {
+		first, second = y, x
+	}
+	ask(first, tH, grpH)
+	ask(second, tH, grpH)
+	ask(first, tG, grpG)
+	ask(second, tG, grpG)
+}
